@@ -786,3 +786,54 @@ Proof.
   split; [eexists; split; [vm_compute; reflexivity| reflexivity]|].
   split; vm_compute; reflexivity.
 Qed.
+
+(* ---- the same for EVERY reachable store, any work values: only [Structural] (MerkleProofs) is needed - the listing
+        theorems never use that the tip is the greatest-cumulative-work header ---- *)
+Theorem structural_walk_complete hlt s batch fuel : Structural s -> roots_unique s -> (1 <= batch)%nat ->
+  exists tip, Inv s tip /\
+    ((length (asc_chain s tip) <= fuel * batch)%nat ->
+     contents (walk_pages fuel hlt s batch) = spec_listing s tip /\
+     Forall (fun p => is_ok p = true) (walk_pages fuel hlt s batch)).
+Proof.
+  intros HV Hu Hb. destruct (structural_inv s HV) as (tip & t & HI & Ht). exists tip. split; [exact HI|].
+  intros Hf. destruct (walk_complete hlt s tip t HI Ht Hu batch Hb fuel Hf) as (H1 & H2 & _). auto.
+Qed.
+
+Theorem structural_walk_pages_bounded hlt s batch fuel : Structural s -> roots_unique s -> (1 <= batch)%nat ->
+  exists tip, Inv s tip /\
+    ((length (asc_chain s tip) <= fuel * batch)%nat ->
+     Forall (fun p => (length (content_of p) <= batch)%nat) (walk_pages fuel hlt s batch) /\
+     Forall (fun p => length (content_of p) = batch) (removelast (walk_pages fuel hlt s batch))).
+Proof.
+  intros HV Hu Hb. destruct (structural_inv s HV) as (tip & t & HI & Ht). exists tip. split; [exact HI|].
+  intros Hf. destruct (walk_complete hlt s tip t HI Ht Hu batch Hb fuel Hf) as (_ & _ & H3 & H4 & _). auto.
+Qed.
+
+Theorem structural_walk_terminates hlt s batch : Structural s -> roots_unique s -> (1 <= batch)%nat ->
+  exists tip, Inv s tip /\
+    let n := length (asc_chain s tip) in
+    (n <= S (n / batch) * batch)%nat /\
+    (length (walk_pages (S (n / batch)) hlt s batch) <= S (n / batch))%nat /\
+    key_of (last (walk_pages (S (n / batch)) hlt s batch) PErrNoTip) = None.
+Proof.
+  intros HV Hu Hb. destruct (structural_inv s HV) as (tip & t & HI & Ht). exists tip. split; [exact HI|].
+  intros n. pose proof (fuel_enough s tip batch Hb) as Hen. fold n in Hen. split; [exact Hen|].
+  destruct (walk_complete hlt s tip t HI Ht Hu batch Hb (S (n / batch)) Hen) as (_ & _ & _ & _ & Hl & Hk). auto.
+Qed.
+
+Theorem structural_page_is_spec hlt s batch key : Structural s -> roots_unique s ->
+  exists tip, Inv s tip /\ page hlt s batch key = spec_page s tip batch key.
+Proof.
+  intros HV Hu. destruct (structural_inv s HV) as (tip & t & HI & Ht). exists tip. split; [exact HI|].
+  apply page_is_spec; assumption.
+Qed.
+
+(* the listing on a zero-work history (the zero-work child 3 of the tip is the tip): Structural, and the walk lists it *)
+Example ex_zero_walk :
+  Structural (run [] 1 ex_gpl ex_zero) /\ roots_unique (run [] 1 ex_gpl ex_zero) /\
+  map content_of (walk_pages 5 lt_id (run [] 1 ex_gpl ex_zero) 2) = [[(1%N, 0); (102%N, 1)]; [(103%N, 2)]] /\
+  page lt_id (run [] 1 ex_gpl ex_zero) 2 (Some 104%N) = PErrConflict.
+Proof.
+  split; [exact (proj1 ex_zero_structural)|]. split; [apply roots_unique_dec; vm_compute; reflexivity|].
+  vm_compute. split; reflexivity.
+Qed.
